@@ -447,10 +447,21 @@ def _apply_sub(sub, text, fname):
         raise Undecided('template error: bad //@sub %s' % sub)
     old = bytes(m.group(1), 'utf-8').decode('unicode_escape')
     new = bytes(m.group(2), 'utf-8').decode('unicode_escape')
-    cnt = text.count(old)
+    # anchors are matched WHITESPACE-INSENSITIVELY (a body re-flowed by rustfmt - a call broken over several lines, a method chain
+    # joined onto one line - keeps its anchors): layout between tokens is free, the token text itself is literal
+    # (the literal text is tried first - anchors that rely on their indentation to be unique keep working; only when the literal text does
+    # not occur the expected number of times the layout-free match is used)
+    want0 = None if m.group(3) == '*' else int(m.group(3) or 1)
+    exact = text.count(old)
+    if (want0 is not None and exact == want0) or (want0 is None and exact > 0):
+        rx = re.compile(re.escape(old))
+    else:
+        rx = _ws_free_regex(old)
+    found = list(rx.finditer(text))
+    cnt = len(found)
     if m.group(3) == '*':
         # `x*`: a pure path / constructor resolution applied wherever it occurs (any count, also none)
-        return text.replace(old, new), cnt
+        return rx.sub(lambda _m: new, text), cnt
     want = int(m.group(3) or 1)
     if optional and cnt == 0:
         return text, 0      # a pure path-resolution substitution: nothing to resolve in this body
@@ -459,11 +470,34 @@ def _apply_sub(sub, text, fname):
     if m.group(4):
         # `xN #k`: N occurrences expected, only the k-th (1-based) is replaced
         k = int(m.group(4))
-        pos = -1
-        for _ in range(k):
-            pos = text.index(old, pos + 1)
-        return text[:pos] + new + text[pos + len(old):], 1
-    return text.replace(old, new), cnt
+        mm = found[k - 1]
+        return text[:mm.start()] + new + text[mm.end():], 1
+    return rx.sub(lambda _m: new, text), cnt
+
+
+def _ws_free_regex(old):
+    """regex that matches the literal `old` up to layout: where `old` has white space between two word characters at least one white space
+    character is required; between any other two consecutive tokens (one of them punctuation) any amount of white space, also none, is
+    accepted - whether or not `old` had some there. Leading / trailing white space of `old` is dropped."""
+    out = []
+    prev = None          # previous non-space character
+    gap = False          # white space seen since `prev`
+    for ch in old:
+        if ch.isspace():
+            gap = True
+            continue
+        if prev is not None:
+            word_prev = prev.isalnum() or prev == '_'
+            word_ch = ch.isalnum() or ch == '_'
+            if word_prev and word_ch:
+                out.append(r'\s+' if gap else '')
+            else:
+                out.append(r'\s*')
+        if ch in ')]}' and prev is not None and prev not in '([{,':
+            out.append(r'(?:,\s*)?')     # rustfmt adds a trailing comma when it breaks an argument list over several lines
+        out.append(re.escape(ch))
+        prev, gap = ch, False
+    return re.compile(''.join(out))
 
 
 def _twin_spec(spec, label):
